@@ -1,5 +1,5 @@
 """C08 - chunk-signed uploads (DESIGN.md section 3, C08)."""
-from .. import flow, guards, paths, writes
+from .. import flow, guards, inline, paths, writes
 from ..facts import callee_def, short
 from ..report import AnchorMissing
 from . import sigcore, sigwrites
@@ -51,8 +51,8 @@ def rule_r1(chk, db, g):
         return None
     cbi, ct = cs[0]
     o = flow.outcomes_of_call(g, cbi)
-    some = o.get("Some") | o.get("Ok") | o.get("true")
-    none = o.get("None") | o.get("Err") | o.get("false")
+    some = o.get("Some") | o.get("Ok") | o.get("true") | o.get("Continue")
+    none = o.get("None") | o.get("Err") | o.get("false") | o.get("Break")
     if not some:
         chk.fail("R1", "verify-before-yield", g.loc(cbi), "the result of check_signature is never tested")
         return None
@@ -437,7 +437,7 @@ def run(chk, db, tier):
     chk.rule("R3", "seed is the verified header signature; stream built only after verification, with the request's date/scope/secret/declared length")
     chk.rule("R4", "completeness: a clean end depends on the zero-length final chunk and on the declared length")
     chk.rule("R5", "Content-Length shown to the backend is the decoded length")
-    g = find_generator(db)
+    g = inline.inlined(db, find_generator(db))      # with its stages / helpers inlined
     r = chk.guard("R1", rule_r1, db, g)
     if r:
         chk.guard("R2", rule_r2, db, g, *r)
